@@ -124,6 +124,12 @@ REG = {
             "collation, (batch, ctx) iff return_ctx, no ctx key lost or invented, batch collated at most once (counting wrapper), "
             "unsatisfiable orders never answered; PadSequencesCollator over length profiles, single/multi-item modes and both ctx paths",
             "DESIGN.md §3 C18", TRUST),
+    "C19": ("exploration", "model-based testing over Hypothesis-generated access histories (get / get_many / clear / forked concurrent readers) with a load-counting base dataset",
+            "payloads from a recursive strategy of picklable values, optional post-cache transform; after every step: observation "
+            "deep-equals the wrapped dataset's (transformed) sample, transform calls == accesses, per-index load counter rises by "
+            "exactly 1 on the first access between clears and by 0 afterwards, clear forces a reload, forked readers sharing the "
+            "cache observe equal values and load each index at most once per reader",
+            "DESIGN.md §3 C19", TRUST + "; reader-process interleavings are sampled, not enumerated"),
 }
 
 NOT_YET = "check not built yet in this session (planned, see DESIGN.md §3)"
